@@ -11,6 +11,8 @@ structure P where
   desc : Option String := none
   dflt : Option String := none
   mandatory : Option Bool := none
+  minEl : Option Nat := none
+  maxEl : Option Nat := none
 deriving DecidableEq, Repr, Inhabited
 
 /-- what a refine states wins, the rest stays -/
@@ -18,7 +20,9 @@ def P.patch (base patch : P) : P :=
   { config := patch.config.orElse fun _ => base.config,
     desc := patch.desc.orElse fun _ => base.desc,
     dflt := patch.dflt.orElse fun _ => base.dflt,
-    mandatory := patch.mandatory.orElse fun _ => base.mandatory }
+    mandatory := patch.mandatory.orElse fun _ => base.mandatory,
+    minEl := patch.minEl.orElse fun _ => base.minEl,
+    maxEl := patch.maxEl.orElse fun _ => base.maxEl }
 
 inductive Kind | cont | list
 deriving DecidableEq, Repr, Inhabited
